@@ -309,11 +309,12 @@ func (h *history) getSlice(f fid, off, length uint64) {
 	h.ops = append(h.ops, fmt.Sprintf("GetSlice %s %s %s", f.coq(), hx.N(off), hx.N(length)))
 	switch {
 	case panicked:
+		// no admitted answer is [256] (not a byte string): a panic is a violation
 		h.out.Count("getslice-panic", 1)
-		h.impl = append(h.impl, "panic_mark")
+		h.impl = append(h.impl, hx.NList([]uint64{256}))
 	case printable(got):
 		h.impl = append(h.impl, coqBytes(got))
-	default: // bytes in front of a needle: padding zeros
+	default: // not what any store wrote (chunk contents are printable)
 		h.impl = append(h.impl, hx.Bytes(got))
 	}
 	h.canon = append(h.canon, fmt.Sprintf("L%s@%d+%d", f.String(), off, length))
@@ -332,7 +333,7 @@ func (h *history) finish(out *hx.Out, kind string) {
 
 func main() {
 	out := hx.Flags("C31", 120)
-	out.Rule = "histories of 6-24 (thorough: 8-40) operations (store 45%, GetChunk 32%, GetChunkSlice 10%, restart 13%: 40% forced timestamps with a random segment order and an independent leveldb-rebuild flag per segment incl. LOG time = .idx time, 15% forced with two equal .dat times in every tier, 25% natural = clean Shutdown and the timestamps the file system left, 20% crash = no Shutdown, the directory copied as is and the copy opened; order and flags are always read back from the files right before re-opening) on NewTieredChunkCache(maxEntries in {1,2,4,1000}, scratch dir, diskSizeInUnit in {8,16,32,64}, unitSize in {8,16,24,32}); file ids over volume ids {3,4} x keys {1,2,3,0x1234} x cookies {0x637037d6,0x11111111} in canonical spelling (70% of the histories use one file id per key, 30% any) plus malformed ids; chunk sizes 0 and around unitSize / 4*unitSize (tier limits), min sizes 0/1/stored length/limits and (1 in 16) 2^63-1/2^63/2^63+5/2^64-1; slices with offset 0 (2/3) or 1..unit, 1 in 6 with length 2^63-1/2^63/2^64-5/2^64-1 and offset 0/1/5/2^63-1 and 1 in 6 with offset 2^64-{1,3,8,9,17}/2^63/2^63+1 and length 0/1/2/6/10/unit/4*unit/2^63/2^64-1, half of them aimed (offset 2^64-e, length e..e+unit, file id of the latest small store) (run under recover; a panic is the answer panic_mark); first cases are the fixed witnesses of findings 0, 1 and 2; non-trivial = some lookup returned bytes; distinct = canonical parameter + operation list"
+	out.Rule = "histories of 6-24 (thorough: 8-40) operations (store 45%, GetChunk 32%, GetChunkSlice 10%, restart 13%: 40% forced timestamps with a random segment order and an independent leveldb-rebuild flag per segment incl. LOG time = .idx time, 15% forced with two equal .dat times in every tier, 25% natural = clean Shutdown and the timestamps the file system left, 20% crash = no Shutdown, the directory copied as is and the copy opened; order and flags are always read back from the files right before re-opening) on NewTieredChunkCache(maxEntries in {1,2,4,1000}, scratch dir, diskSizeInUnit in {8,16,32,64}, unitSize in {8,16,24,32}); file ids over volume ids {3,4} x keys {1,2,3,0x1234} x cookies {0x637037d6,0x11111111} in canonical spelling (70% of the histories use one file id per key, 30% any) plus malformed ids; chunk sizes 0 and around unitSize / 4*unitSize (tier limits), min sizes 0/1/stored length/limits and (1 in 16) 2^63-1/2^63/2^63+5/2^64-1; slices with offset 0 (2/3) or 1..unit, 1 in 6 with length 2^63-1/2^63/2^64-5/2^64-1 and offset 0/1/5/2^63-1 and 1 in 6 with offset 2^64-{1,3,8,9,17}/2^63/2^63+1 and length 0/1/2/6/10/unit/4*unit/2^63/2^64-1, half of them aimed (offset 2^64-e, length e..e+unit, file id of the latest small store) (run under recover; a panic is the answer [256], which the model never admits); first cases are the fixed witnesses of finding 0 and of the repaired findings 1 and 2 (these must be verdict 0); non-trivial = some lookup returned bytes; distinct = canonical parameter + operation list"
 	root := hx.NewRng(out.Seed)
 
 	// ----- fixed witnesses of finding 0 (needle key shared, volume id or cookie differs) -----
@@ -363,7 +364,8 @@ func main() {
 		h.finish(out, "fixed-overwritten-by-alias")
 	}
 
-	// ----- fixed witnesses of finding 1 (minimum size from 2^63 on: int(minSize) < 0) -----
+	// ----- fixed witness of the REPAIRED finding 1 (minimum size from 2^63 on: int(minSize) < 0):
+	// the huge lookups must miss, the case must be verdict 0 -----
 	if out.Seed%1000 == 0 {
 		h := newHistory(out, 1000, 64, 1)
 		f := fid{vid: 3, key: 1, cookie: 0x637037d6}
@@ -371,19 +373,23 @@ func main() {
 		h.get(f, 1<<63)
 		h.getSlice(f, 1, 1<<63-1)
 		h.get(f, 6)
+		h.get(f, 1<<64-1)
+		h.getSlice(f, 0, 1<<63)
+		h.get(f, 5)
 		h.finish(out, "fixed-minsize-2^63")
 	}
 
-	// ----- fixed witness of finding 2 (slice offset from 2^63 on: int(offset) < 0) -----
+	// ----- fixed witness of the REPAIRED finding 2 (slice offset from 2^63 on: int(offset) < 0):
+	// no panic, no bytes in front of the chunk; the case must be verdict 0 -----
 	if out.Seed%1000 == 0 {
 		h := newHistory(out, 1000, 64, 8)
 		a := fid{vid: 3, key: 1, cookie: 0x637037d6}
 		b := fid{vid: 3, key: 2, cookie: 0x637037d6}
 		h.store(a, []byte("abcde"))
 		h.store(b, []byte("XYZ"))
-		h.getSlice(b, 1<<64-1, 2) // memory tier: panic
+		h.getSlice(b, 1<<64-1, 2) // memory tier: used to panic
 		h.restart(hx.NewRng(6), modeNatural)
-		h.getSlice(b, 1<<64-4, 6) // disk tier: "e" 0 0 0 "XY"
+		h.getSlice(b, 1<<64-4, 6) // disk tier: used to return "e" 0 0 0 "XY"
 		h.getSlice(b, 1<<64-9, 10)
 		h.get(b, 1)
 		h.finish(out, "fixed-offset-2^63")
@@ -467,7 +473,8 @@ func main() {
 					length = r.PickU64([]uint64{1<<63 - 1, 1 << 63, 1<<64 - 5, 1<<64 - 1, 1})
 					out.Count("getslice-huge", 1)
 				} else if r.Chance(1, 6) {
-					// int(offset) negative: panic in the memory tier, bytes in front of the needle on disk
+					// int(offset) would be negative (before the repair: panic in the memory tier,
+					// bytes in front of the needle on disk): must miss
 					off = r.PickU64([]uint64{1<<64 - 1, 1<<64 - 3, 1<<64 - 8, 1<<64 - 9, 1<<64 - 17, 1 << 63, 1<<63 + 1})
 					length = r.PickU64([]uint64{0, 1, 2, 6, 10, uint64(u), uint64(4 * u), 1 << 63, 1<<64 - 1})
 					if r.Chance(1, 2) {
